@@ -16,13 +16,15 @@ import DS.Gen.Opcodes
 namespace DS.Props.C16
 open DS.Peg DS.Gen.Opcodes
 
-def envOf (input : Array Nat) (maxCnt : Nat) : Env :=
+/-- the engine's environment for an input; `custom` = the registered custom dice parsers (match length per offset) -/
+def envOf (input : Array Nat) (maxCnt : Nat) (custom : Nat → Nat := fun _ => 0) : Env :=
   { input := input, rules := DS.Gen.Grammar.rules, acts := DS.Gen.Actions.acts, nodeCount := DS.Gen.Grammar.nodeCount,
-    tables := DS.Gen.Unicode.tables, bpush := op_typeBlockPush, bpop := op_typeBlockPop, jmp := op_typeJmp, maxCnt := maxCnt }
+    tables := DS.Gen.Unicode.tables, bpush := op_typeBlockPush, bpop := op_typeBlockPop, jmp := op_typeJmp, maxCnt := maxCnt,
+    custom := custom, customOp := op_typeCustomDice }
 
 def ge : GEnv := (envOf #[] 0).genv
 
-theorem genv_const (input : Array Nat) (maxCnt : Nat) : (envOf input maxCnt).genv = ge := rfl
+theorem genv_const (input : Array Nat) (maxCnt : Nat) (custom : Nat → Nat) : (envOf input maxCnt custom).genv = ge := rfl
 
 mutual
 /-- ids of the nodes that cannot succeed while the flag is blocked -/
